@@ -97,6 +97,7 @@ class E2EWorld(World):
         st.D.user.probe = probe
         st.budget = self.K
         st.cancels = self.cfg.get("cancels", 0)
+        st.ntx = 1
         ok = st.S.h.put_request(core.put_request(c))
         assert ok
         return st
@@ -152,6 +153,9 @@ class E2EWorld(World):
         for e in ("S", "D"):
             if clock.next_expiry(getattr(st, e).h) is not None:
                 evs.append(("expire", e))
+        if self.cfg.get("tx2") is not None and st.ntx == 1 and self.both_idle(st) and not st.sd and not st.ds and not st.limbo \
+                and (st.fin["S"] or st.fin["D"] or st.S.closed):
+            evs.append(("put2",))  # a second transaction on the same two handlers (request-level overrides in cfg['tx2'])
         if getattr(st, "cancels", 0) > 0:
             for e in ("S", "D"):
                 ent = getattr(st, e)
@@ -233,6 +237,15 @@ class E2EWorld(World):
             obs, msgs = ent.step(None)
             self._entity_obs(st, ev[1], obs, msgs, out)
             self._send(st, ev[1], msgs)
+        elif k == "put2":
+            c2 = dict(self.c)
+            c2.update(self.cfg["tx2"])
+            st.ntx = 2
+            st.fin = {"S": [], "D": []}
+            obs, msgs, ret = st.S.call(st.S.h.put_request, core.put_request(c2))
+            obs["ret"] = ret
+            self._entity_obs(st, "S", obs, msgs, out)
+            self._send(st, "S", msgs)
         elif k == "cancel":
             ent = getattr(st, ev[1])
             st.cancels -= 1
@@ -300,6 +313,8 @@ class E2EWorld(World):
         """Reasons why ``st`` is not a successful completion (empty list = goal state)."""
         why = []
         c = self.c
+        if self.cfg.get("tx2") is not None and st.ntx == 1:
+            why.append("second transaction was never started")
         if st.S.h.state != CfdpState.IDLE:
             why.append(f"sender not idle (step {st.S.h.states.step.name})")
         if st.D.h.state != CfdpState.IDLE:
